@@ -34,6 +34,7 @@ SOFTWARE, EVEN IF ADVISED OF THE POSSIBILITY OF SUCH DAMAGE.
 #include <yara/exefiles.h>
 #include <yara/libyara.h>
 #include <yara/mem.h>
+#include <yara/modules.h>
 #include <yara/object.h>
 #include <yara/proc.h>
 #include <yara/scanner.h>
@@ -589,7 +590,13 @@ YR_API int yr_scanner_scan_mem_blocks(
   YR_TRYCATCH(
       !(scanner->flags & SCAN_FLAGS_NO_TRYCATCH),
       { result = yr_execute_code(scanner); },
-      { result = ERROR_COULD_NOT_MAP_FILE; });
+      {
+        // The exception skipped the epilogue of yr_execute_code: the modules
+        // loaded for this scan are still registered in the scanner's objects
+        // table and would be taken for already loaded by the next scan.
+        result = ERROR_COULD_NOT_MAP_FILE;
+        yr_modules_unload_all(scanner);
+      });
 
   if (result != ERROR_SUCCESS)
     goto _exit;
